@@ -211,13 +211,16 @@ fn handle_delete<W: Write>(
     let resp = with_commit_lock(lockdir, || {
         let current = current_hash(&dst);
         match cas_decide(current, expected) {
-            Cas::Commit => {
-                let _ = std::fs::remove_file(&dst);
-                Response::DeleteResult {
+            Cas::Commit => match std::fs::remove_file(&dst) {
+                Err(e) if e.kind() != std::io::ErrorKind::NotFound => {
+                    // still there: nothing may be acknowledged as deleted
+                    Response::Error(format!("cannot delete: {e}"))
+                }
+                _ => Response::DeleteResult {
                     deleted: true,
                     current: None,
-                }
-            }
+                },
+            },
             Cas::Conflict => Response::DeleteResult {
                 deleted: false,
                 current,
